@@ -107,6 +107,10 @@ pub enum Surgery {
     /// characters as their low byte but name other glyphs (no corpus font has a non-Unicode
     /// cmap with colliding codes).
     MacRomanCmap { glyphs: Vec<u16> },
+    /// Replace `name` by a well-formed table whose family / typographic family / PostScript
+    /// prefix names are long and (depending on `variant`) non-ASCII: Cyrillic, CJK, astral,
+    /// or mixed with ASCII so that byte-length limits fall inside a multi-byte character.
+    LongNames { variant: u64 },
     /// Re-pack `hmtx` with only `num_h_metrics` long metrics (glyphs after that take the last
     /// advance and keep their side bearing) and update `hhea`. Every corpus CFF2 font and most
     /// others have numberOfHMetrics == numGlyphs, which hides the compact form from the writers.
